@@ -336,6 +336,9 @@ def _e2e_case(res, case):
             dba.gene.get_refseq(m) == f"{tv[0]}{tv[1]}" for m in a.func_muts)]
         if owners:
             copies = [dba.first_minor(owners[0]), dba.first_minor(owners[0]) if rng.random() < 0.4 else dba.reference_copy()]
+    if not dba.gene.do_copy_number:
+        # (a database without structural alleles is always genotyped with two copies)
+        copies = copies[:2] if len(copies) >= 2 else copies * 2
     if any(c[0] not in dbb.gene.alleles for c in copies):
         res.count("skipped_catalogues_differ")
         return None
